@@ -1,7 +1,7 @@
 (* C11 — conditional compilation selects exactly the branches C semantics select.
    Property theorems only. *)
 From Coq Require Import List NArith Bool String Lia.
-From RV Require Import Cond CondProofs CondParserProofs GenCond CondIncl CondInclProofs.
+From RV Require Import Cond CondProofs CondParserProofs GenCond CondIncl CondInclProofs XTree.
 Import ListNotations.
 
 (* ---- table obligations (regenerated from the source on every run) ---- *)
@@ -134,6 +134,75 @@ Example C11_include_example2 :
   inl ([("G"%string, None)], [OText 9; OText 2; OText 9; OId "A"]).
 Proof. vm_compute. reflexivity. Qed.
 
+
+(* ---- wherever the chain is inactive after the lines before it, a group's worth of lines of any kind can be taken out of
+        the file without changing the result ---- *)
+Theorem C11_skipped_region_is_erasable :
+  forall switch evalc files d self a body b st st1,
+    xrun switch evalc files d self a st = inl st1 -> is_active (p_stack (x_p st1)) = false -> xgroup 0 body = true ->
+    xrun switch evalc files d self (a ++ body ++ b) st = xrun switch evalc files d self (a ++ b) st.
+Proof. exact skipped_region_erasable. Qed.
+
+(* ==== conditional groups over lines of every kind (XTree.v) ==== *)
+
+(* ---- every well-nested tree whose leaves are text, #define, #undef, #include, #pragma or unknown directives, every
+        truth assignment to the conditions, every include handler and depth: the preprocessor model performs exactly the
+        leaves of the groups C's rules select, in order, and ends with the first of them that is rejected; the leaves of
+        every other group - whatever they are - are not looked at.  A selected leaf does what the model does on that
+        line alone (`live`); `ok_items` asks of each leaf that it is no conditional directive and leaves the chain as it
+        found it (`frame`), which the three theorems below give for every leaf but an #include of an unbalanced file ---- *)
+Theorem C11_tree_selects_C_groups :
+  forall (evalb : env -> list ctok -> bool) (files : string -> option (list xline)) (d : nat) (self : string)
+         (its : xitems) (v : vis),
+    ok_items switch evalb files d self its ->
+    xrun switch (evalc evalb) files d self (xflat_items its) (st_of [] v) =
+    match xsem_items switch evalb files d self v its with inl v' => inl (st_of [] v') | inr e => inr e end.
+Proof. exact (tree_selects_C_groups switch C11_switch_table). Qed.
+
+Theorem C11_frame_not_include :
+  forall evalb files d self x, leaf_shape x = true -> (forall f, x <> XInclude f) -> frame switch evalb files d self x.
+Proof. exact (frame_not_include switch). Qed.
+
+Theorem C11_frame_include_of_a_tree :
+  forall evalb files d self f body,
+    files f = Some (xflat_items body) -> ok_items switch evalb files d f body ->
+    frame switch evalb files (S d) self (XInclude f).
+Proof. exact (frame_include switch C11_switch_table). Qed.
+
+Theorem C11_frame_include_missing :
+  forall evalb files d self f, files f = None -> frame switch evalb files d self (XInclude f).
+Proof. exact (frame_include_missing switch). Qed.
+
+(* non-vacuity: main = #ifdef G / #include "missing.h" / #pragma nonsense / #else / #include "a.h" / x1 / #endif / G
+                a.h  = #define G / #if 0 / #bogus / #endif / x9 *)
+Local Open Scope string_scope.
+Definition ex_a : xitems :=
+  XCons (XLeaf (XL (LDefine "G" None)))
+  (XCons (XCond (GIf [KNum 0]) (XCons (XLeaf XUnknown) XNil) XEnd)
+  (XCons (XLeaf (XL (LText 9))) XNil)).
+Definition ex_main : xitems :=
+  XCons (XCond (GIfdef "G") (XCons (XLeaf (XInclude "missing.h")) (XCons (XLeaf XPragmaOther) XNil))
+               (XElse (XCons (XLeaf (XInclude "a.h")) (XCons (XLeaf (XL (LText 1))) XNil))))
+  (XCons (XLeaf (XL (LUse "G"))) XNil).
+Definition ex_tree_files (f : string) : option (list xline) :=
+  if String.eqb f "a.h" then Some (xflat_items ex_a) else None.
+Definition ex_evalb (e : env) (c : list ctok) : bool := match eval_cond e c with inl b => b | inr _ => false end.
+
+Example C11_tree_example_ok : ok_items switch ex_evalb ex_tree_files 5 "main.rssl" ex_main.
+Proof.
+  assert (Ha : ok_items switch ex_evalb ex_tree_files 4 "a.h" ex_a).
+  { cbn [ok_items ok_item ok_tail ex_a]. repeat split; try (apply C11_frame_not_include; [reflexivity | discriminate]). }
+  cbn [ok_items ok_item ok_tail ex_main]. repeat split;
+    try (apply C11_frame_not_include; [reflexivity | discriminate]).
+  - apply C11_frame_include_missing. reflexivity.
+  - apply (C11_frame_include_of_a_tree ex_evalb ex_tree_files 4 "main.rssl" "a.h" ex_a eq_refl Ha).
+Qed.
+Example C11_tree_example_value :
+  xsem_items switch ex_evalb ex_tree_files 5 "main.rssl" ([], [], []) ex_main =
+  inl ([("G", None)], [OText 9; OText 1], []).
+Proof. vm_compute. reflexivity. Qed.
+Local Close Scope string_scope.
+
 Print Assumptions C11_switch_table.
 Print Assumptions C11_apply_table.
 Print Assumptions C11_level_table.
@@ -145,3 +214,8 @@ Print Assumptions C11_false_conditional_has_no_effect.
 Print Assumptions C11_include_model_is_conservative.
 Print Assumptions C11_include_is_paste_under_conditionals.
 Print Assumptions C11_include_depth_pinned.
+Print Assumptions C11_tree_selects_C_groups.
+Print Assumptions C11_frame_not_include.
+Print Assumptions C11_frame_include_of_a_tree.
+Print Assumptions C11_frame_include_missing.
+Print Assumptions C11_skipped_region_is_erasable.
